@@ -117,4 +117,15 @@ def filterEntries (md : List Entry) (substr family role : Option String) (elemen
   | some s => if s.isEmpty then md else md.filter fun e => isSubstr (lower s) e.key || isSubstr (lower s) (lower e.display)
   | none => md
 
+/-- `get_families`: `sorted(set(family of every entry))` -/
+def families (md : List Entry) : List String := sortDedupStr (md.map (·.family))
+
+/-- insertion that keeps repetitions (`sorted(list)`) -/
+def insertDup (x : String) : List String → List String
+  | [] => [x]
+  | y :: ys => if y < x then y :: insertDup x ys else x :: y :: ys
+
+/-- `get_all_basis_names`: `sorted(display name of every entry)` -/
+def allNames (md : List Entry) : List String := (md.map (·.display)).foldr insertDup []
+
 end BSE.Index
